@@ -115,6 +115,28 @@ pub fn check_pair(sh: &mut Shard, r: &mut Rng, a: &IG, b: &IG, lat: &Lat, verbos
             sh.class(&format!("spelling:{name}"));
         }
     }
+    // 5. -0.0 and +0.0 are one and the same coordinate: an operand whose zeros are written as -0.0 is the same point set
+    {
+        use geo::{CoordsIter, MapCoords};
+        let has_zero = |g: &Geometry<f64>| g.coords_iter().any(|c| c.x == 0.0 || c.y == 0.0);
+        let neg = |c: geo::Coord<f64>| geo::Coord { x: if c.x == 0.0 { -0.0 } else { c.x }, y: if c.y == 0.0 { -0.0 } else { c.y } };
+        for which in 0..2 {
+            let (x, y) = if which == 0 { (ga.map_coords(neg), gb.clone()) } else { (ga.clone(), gb.map_coords(neg)) };
+            if !has_zero(if which == 0 { &ga } else { &gb }) {
+                continue;
+            }
+            sh.eval(1);
+            match relate_enum(&x, &y) {
+                Ok(got) => {
+                    if got != exp {
+                        sh.violation(&format!("relate.spelling|negative zero|{pair}|{kc}"), detail("relate.spelling", a, b, lat, &exp, &got, json!({"spelling": "zeros of one operand written as -0.0", "of_operand": which})));
+                    }
+                }
+                Err(p) => sh.violation(&format!("relate.panic|{pair}|{kc}"), detail("relate.panic", a, b, lat, &exp, &p, json!({"spelling": "negative zero"}))),
+            }
+            sh.class("spelling:negative zero");
+        }
+    }
     // bookkeeping
     sh.class(&format!("pair:{pair}"));
     for n in orc.classes.names() {
